@@ -602,10 +602,17 @@ func MaybeChild() {
 	}
 }
 
+// Deadline, when set, ends the enumeration between scenarios (reported as not exhaustive, never as a failure).
+var Deadline time.Time
+
 // Enumerate takes every crash point of every scenario and reports to r.
 func Enumerate(r *runner.Run, scens []Scenario) {
 	scratch := runner.Scratch()
-	for _, sc := range scens {
+	for si, sc := range scens {
+		if !Deadline.IsZero() && time.Now().After(Deadline) {
+			r.NotExhaustive(fmt.Sprintf("crash enumeration: time budget reached after %d of %d histories", si, len(scens)))
+			break
+		}
 		steps := scriptFor(sc.Script)
 		var extra []string
 		if sc.ArmEarly {
